@@ -45,13 +45,14 @@ theorem C02_issue_order_kept (es : List Event) (a b : Event) (hab : a.time ≤ b
     (h : [a, b] <+ es) : [a, b] <+ normalize es :=
   normalize_stable es a b hab (h.trans (split_keeps_order es))
 
-/-- every note-on is paired with a note-off at start + gate, same channel/key/velocity, after it -/
-theorem C02_note_off_pairing (es : List Event) (e : Event) (he : e ∈ es) (hk : e.kind = .noteOn)
-    (hg : 0 ≤ e.v2) :
-    [e, noteOffOf e] <+ normalize es ∧ (noteOffOf e).time = e.time + e.v2 ∧
+/-- every note-on — whatever its gate — is paired with a note-off of the same channel/key/velocity that comes after it in the track,
+    at start + gate (a negative gate counts as 0: the note-off never precedes its note-on, no note is left sounding) -/
+theorem C02_note_off_pairing (es : List Event) (e : Event) (he : e ∈ es) (hk : e.kind = .noteOn) :
+    [e, noteOffOf e] <+ normalize es ∧ (noteOffOf e).time = e.time + (if e.v2 < 0 then 0 else e.v2) ∧ e.time ≤ (noteOffOf e).time ∧
+      (0 ≤ e.v2 → (noteOffOf e).time = e.time + e.v2) ∧
       (noteOffOf e).ch = e.ch ∧ (noteOffOf e).v1 = e.v1 ∧ (noteOffOf e).v3 = e.v3 :=
-  ⟨normalize_stable es e (noteOffOf e) (by simp [noteOffOf]; omega) (split_pairs es e he hk),
-   rfl, rfl, rfl, rfl⟩
+  ⟨normalize_stable es e (noteOffOf e) (by simp only [noteOffOf]; split <;> omega) (split_pairs es e he hk),
+   rfl, by simp only [noteOffOf]; split <;> omega, fun h => by simp only [noteOffOf]; rw [if_neg (by omega)], rfl, rfl, rfl⟩
 
 /-- decoded data bytes are always 7-bit: values outside the range appear clamped, never wrapped -/
 theorem C02_data_bytes_7bit (v : Int) : clamp7 v < 128 ∧ (0 ≤ v → v ≤ 127 → clamp7 v = v.toNat) := by
